@@ -154,6 +154,13 @@ def run_job(job):
                 w.conn(c).deliver_lost()
             else:
                 w.conn(c).drop()
+        elif ev == 'Reopen':
+            if not st0['has'][str(c)] or st0['ph'][str(c)] != 'open':
+                skipped += 1
+                continue
+            # what Worker._do_copy and the archive step do while they hold the lock
+            DBI().close()
+            DBI().open()
         else:
             raise ValueError(ev)
         obs['told'] = w.told()
